@@ -173,3 +173,74 @@ def natural_loops(fn):
                 l[0] |= body
                 l[1].append((t, h))
     return [(h, v[0], v[1]) for h, v in sorted(loops.items())]
+
+
+def reach_flag_aware(fn, pg, starts, avoid=()):
+    """Forward reachability like PG.reach, but carrying the known values of boolean locals whose every definition is
+    a constant (`matches!`, `let bad = ..` flags lowered by the compiler, `found` flags): an edge of a switch on such a
+    local is not taken when the value assigned on the way contradicts it."""
+    from dataflow import assigned_locals
+    avoid = set(avoid)
+    defs = assigned_locals(fn)
+    flagdefs = {}
+    flags = set()
+    for l, ds in defs.items():
+        if fn.locals[l]["s"] != "bool" or not ds:
+            continue
+        vals = []
+        for d in ds:
+            bb, idx, x = d
+            if idx == "t" or x["place"]["proj"] or x["rv"]["r"] != "use" or x["rv"]["op"]["k"] != "const" or "val" not in x["rv"]["op"]:
+                vals = None
+                break
+            vals.append((("s", bb, idx), bool(x["rv"]["op"]["val"])))
+        if vals:
+            flags.add(l)
+            for n_, v_ in vals:
+                flagdefs[n_] = (l, v_)
+    edge_fact = {}
+    if flags:
+        for b, blk in enumerate(fn.blocks):
+            t = blk["term"]
+            if blk["cleanup"] or t["t"] != "switch" or t["discr"]["k"] not in ("copy", "move") or t["discr"]["place"]["proj"]:
+                continue
+            l = t["discr"]["place"]["local"]
+            src = l
+            if l not in flags:
+                # `_t = copy flag; switch _t`
+                for st in blk["stmts"]:
+                    if st["s"] == "assign" and not st["place"]["proj"] and st["place"]["local"] == l and st["rv"]["r"] == "use" and st["rv"]["op"]["k"] in ("copy", "move") and not st["rv"]["op"]["place"]["proj"] and st["rv"]["op"]["place"]["local"] in flags:
+                        src = st["rv"]["op"]["place"]["local"]
+            if src not in flags:
+                continue
+            arms = dict((int(v_), tg) for v_, tg in t["arms"])
+            for e, tgt in pg.edge_target.items():
+                if e[1] != b:
+                    continue
+                if 0 in arms and tgt == arms[0] and tgt != t["otherwise"]:
+                    edge_fact[e] = (src, False)
+                elif tgt == t["otherwise"] and (0 in arms and arms[0] != tgt):
+                    edge_fact[e] = (src, True)
+    start_states = [(s_, ()) for s_ in starts if s_ not in avoid]
+    seen = set(start_states)
+    work = list(start_states)
+    out = set(s_ for s_, _ in start_states)
+    while work:
+        n, st = work.pop()
+        for q in pg.succ.get(n, ()):
+            if q in avoid:
+                continue
+            fd = dict(st)
+            if q in edge_fact:
+                l, v = edge_fact[q]
+                if l in fd and fd[l] != v:
+                    continue
+                fd[l] = v
+            if q in flagdefs:
+                fd[flagdefs[q][0]] = flagdefs[q][1]
+            key = (q, tuple(sorted(fd.items())))
+            if key not in seen:
+                seen.add(key)
+                out.add(q)
+                work.append(key)
+    return out
